@@ -742,6 +742,14 @@ def subclass_values(rng, n):
         out.append(v)
     out.append(S.Color.RED)
     out.append([S.Color.BIG])
+    # instances long enough for the long-sequence shortcut of sequence_of_docs (3 * n > 150: always broken) and for max_seq_len's neighbourhood
+    # of it: the class must survive whichever path builds the brackets
+    for nn in (50, 51, 60, 200):
+        out.append(S.make(rng, list, [rng.randrange(9) for _ in range(nn)]))
+        out.append(S.make(rng, tuple, tuple(range(nn))))
+        out.append(S.make(rng, set, set(range(nn))))
+        out.append([S.make(rng, frozenset, frozenset(range(nn))), 1])
+        out.append({'k': S.make(rng, dict, {i: i for i in range(nn)})})
     return out
 
 
@@ -2225,6 +2233,22 @@ def fresh_comment_section(tier, seed):
 # ---------------------------------------------------------------------------------------------
 # C06 at the level of values: a one-line rendering of L columns is reproduced at every width and ribbon_width >= L
 
+def is_int_tree(v):
+    if type(v) is int:
+        return True
+    return type(v) in (list, tuple) and all(is_int_tree(x) for x in v)
+
+
+def simple_oneline(v):
+    """repr(v) when v is a tree of plain lists / tuples of plain ints in which no sequence is long enough for the long-sequence shortcut of
+    sequence_of_docs (3 * n > MAX_PRACTICAL_RIBBON_WIDTH = 150, i.e. n >= 51) — such a value's document has no forced break; None otherwise"""
+    def ok(x):
+        if type(x) is int:
+            return True
+        return type(x) in (list, tuple) and len(x) <= 50 and all(ok(y) for y in x)
+    return repr(v) if ok(v) and type(v) is not int else None
+
+
 def oneline_chunk(cases):
     drv = _driver()
     mism, fails = [], []
@@ -2233,11 +2257,25 @@ def oneline_chunk(cases):
         with warnings.catch_warnings():
             warnings.simplefilter('ignore')
             wide = pp.pformat(value, width=100000, ribbon_width=100000)
-        if '\n' in wide:
-            continue
-        L = len(wide)
-        sets = [(4, w, r, None, 1000, 0) for (w, r) in ((L, L), (L + 1, L), (L, L + 1), (L + 3, L + 3), (2 * L, L), (L, 2 * L), (L + 40, L + 17))
-                if w >= 1 and r >= 1 and V.ribbon_ok(w, r)]
+        ref = simple_oneline(value)
+        broken_wide = '\n' in wide
+        if broken_wide:
+            # an independent notion of the one-line form: a list / tuple of ints whose sequences all have at most
+            # MAX_PRACTICAL_RIBBON_WIDTH / 3 elements contains no forced break, so its unbounded-width rendering is repr(value)
+            if ref is not None and len(fails) < 3:
+                fails.append({'kind': 'value-without-forced-break-is-broken-at-unbounded-width', 'value': repr(value)[:300], 'one_line': ref[:300],
+                              'L': len(ref), 'settings': (4, 100000, 100000, None, 1000, 0), 'text': wide[:400]})
+            if not is_int_tree(value):
+                continue
+            # long sequences around the shortcut's threshold: no one-line form, but model and implementation must still agree
+            sets = [(4, 100000, 100000, None, 1000, 0), (4, 160, 160, None, 1000, 0)]
+        else:
+            if ref is not None and wide != ref and len(fails) < 3:
+                fails.append({'kind': 'one-line-form-is-not-the-literal', 'value': repr(value)[:300], 'one_line': ref[:300], 'L': len(ref),
+                              'settings': (4, 100000, 100000, None, 1000, 0), 'text': wide[:400]})
+            L = len(wide)
+            sets = [(4, w, r, None, 1000, 0) for (w, r) in ((L, L), (L + 1, L), (L, L + 1), (L + 3, L + 3), (2 * L, L), (L, 2 * L), (L + 40, L + 17))
+                    if w >= 1 and r >= 1 and V.ribbon_ok(w, r)]
         if not sets:
             continue
         nt += 1
@@ -2247,7 +2285,7 @@ def oneline_chunk(cases):
             p, text, kinds = impl_piece(value, st)
             pieces.append(p)
             n += 1
-            if text != wide and len(fails) < 3:
+            if not broken_wide and text != wide and len(fails) < 3:
                 fails.append({'kind': 'value-one-line-unstable', 'value': repr(value)[:300], 'one_line': wide[:300], 'L': L, 'settings': st,
                               'text': (text or '')[:400]})
                 break
@@ -2288,6 +2326,9 @@ def oneline_section(tier, seed):
                 v = {rng.choice(['key', 'a']): v, 'z': 1}
         vals.append(v)
     vals += [V.rand_value(rng, budget=rng.choice([3, 6, 10])) for _ in range(300 if tier == 'quick' else 3000)]
+    # sequences around the long-sequence shortcut (n = 50 still has a one-line form of 150 columns, n = 51 never has one), bare and nested
+    for nn in (48, 49, 50, 51, 52):
+        vals += [[0] * nn, tuple(range(nn)), [[1] * nn], ([7] * nn, 2), [rng.randrange(10) for _ in range(nn)], [[3] * nn, [4] * 50]]
     chunks = [vals[i:i + 40] for i in range(0, len(vals), 40)]
     tot = nt = 0
     mism, fails = [], []
